@@ -8,6 +8,11 @@ Space     every bookable ledger of vt.ledgers12 (all sequences of <= n transacti
           cash USD, cash EUR, lot, second lot, partial sale, conversion @ price, expense, income, lot at
           zero cost; fixed
           price schedule with terminating rates)
+          x price maps  {ordinary rates (all statements below); every rate doubled; the LATEST directive of
+                        every (commodity, quote) pair exactly 0 -- a delisted share / worthless currency:
+                        a price that exists and is zero, not a missing price}: the two extra price maps
+                        are run, for EVERY ledger, through the full sum-form x function statement
+                        (ungrouped and GROUP BY account) right after the ordinary one in the same process
           x selections  WHERE in 8 filters (none, regex, equality, date, sign, always-false, NULL-producing,
                         NULL OR bool) x FROM expression in {none, has_account('Inv'), date < D}
           x groupings   {none, account, currency, (year, month), root(account, 1)}
@@ -346,8 +351,11 @@ def check_agg(led, wname, fname, gname, fdates, stats, totals=None):
                 out.append((f'sum-of:{fpn}', f'{desc} group {k!r}: sum({name}(position)) = {show(b)}, reference fold = {show(exp_b)}'))
             if a != exp_a:
                 out.append((f'f-of-sum:{fpn}', f'{desc} group {k!r}: {name}(sum(position)) = {show(a)}, reference = {show(exp_a)}'))
-            if not a.is_empty() and a != total:
+            if isinstance(a, Inv) and not a.is_empty() and a != total:
                 stats['nontrivial_f'].add((fpn, inv_key(a)))
+            if led.variant == 2 and name == 'value' and exp_a != total and len(exp_a) < len(total):
+                # non-vacuity of the zero-price map: a group holding a commodity whose market value is exactly 0
+                stats['groups_holding_a_commodity_priced_at_zero'] += 1
     # (iii) partition adds up to the implementation's own total
     if totals is not None:
         if gname == 'none':
@@ -1036,11 +1044,13 @@ def shard(shard_i, nshards, n, seed, tier):
                     emit(case, run_case(led, case, stats))
         # the same ledger with every rate doubled, right after (and, for the next ledger, right before) the
         # ordinary rates in the same process: nothing about prices may survive a connection
-        led2 = Ledger(seq, seed, 1)
-        acc.count('price_variant_ledgers')
-        for gname in ('none', 'account'):
-            case = led2.case('agg', where='none', **{'from': 'none'}, group=gname, fdates=fdates)
-            emit(case, run_case(led2, case, stats, fdates=fdates))
+        # ... and with the latest rate of every pair exactly zero (variant 2): a zero price is a price
+        for variant in (1, 2):
+            led2 = Ledger(seq, seed, variant)
+            acc.count('price_variant_ledgers' if variant == 1 else 'zero_price_ledgers')
+            for gname in ('none', 'account'):
+                case = led2.case('agg', where='none', **{'from': 'none'}, group=gname, fdates=fdates)
+                emit(case, run_case(led2, case, stats, fdates=fdates))
         source_before = [(t.date, t.narration, p.account, p.units, p.cost, p.price) for t, p in led.rows]
         for shape in ISHAPES:
             for wname in IWHERE:
@@ -1127,6 +1137,8 @@ def run(ctx):
         'balance_references_compared': c['balance_refs'],
         'grouped_balance_statements_with_several_groups': c['grouped_balance_statements_with_several_groups'],
         'ledgers_rechecked_with_doubled_rates': c['price_variant_ledgers'],
+        'ledgers_rechecked_with_latest_rates_zero': c['zero_price_ledgers'],
+        'groups_holding_a_commodity_priced_at_zero': c['groups_holding_a_commodity_priced_at_zero'],
         'balance_in_where_behind_from_filter_statements': c['balance_in_where_behind_from_filter'],
         'lazy_reference_statements': c['lazy_reference_statements'],
         'balance_references_behind_a_NULL_argument': c['balance_refs_behind_null_argument'],
@@ -1146,6 +1158,8 @@ def run(ctx):
             'sum_forms': [s[0] for s in SUMFORMS], 'functions': [f[0] for f in functions(fdates)],
             'balance_target_patterns': PATTERNS, 'balance_where_conditions': list(BCOND),
             'balance_where_patterns': BPATTERNS, 'prices': [list(map(str, p)) for p in L.price_schedule(ctx.seed)],
+            'prices_doubled': [list(map(str, p)) for p in L.price_schedule(ctx.seed, 1)],
+            'prices_latest_zero': [list(map(str, p)) for p in L.price_schedule(ctx.seed, 2)],
         },
         'samples': acc.samples[:6],
     }
@@ -1155,4 +1169,7 @@ def run(ctx):
         'balance-in-WHERE cases only use conditions that evaluate the balance term on every scanned row (first operand, no FROM expression)',
         'value of the intervening IN target compared only when its subquery returns rows',
         'exchange rates restricted to values whose reciprocal terminates; beancount Inventory/convert/prices are trusted',
+        'a price directive of exactly 0 is a price (beancount.core.convert values the position at 0 <quote>, which an Inventory drops), '
+        'not a missing price; the doubled and the zero price maps are only run through the ungrouped / GROUP BY account aggregate '
+        'statement without WHERE / FROM filter (all sum forms and functions), on every ledger',
     ])
